@@ -31,6 +31,8 @@ pub mod c18;
 #[cfg(feature = "full")]
 pub mod c19;
 #[cfg(feature = "full")]
+pub mod c20;
+#[cfg(feature = "full")]
 pub mod c21;
 #[cfg(feature = "full")]
 pub mod c23;
@@ -94,6 +96,7 @@ pub fn all() -> Vec<Property> {
         v.push(Property { id: "C16", level: "exploration", build: c16::build });
         v.push(Property { id: "C18", level: "exploration", build: c18::build });
         v.push(Property { id: "C19", level: "exploration", build: c19::build });
+        v.push(Property { id: "C20", level: "fault_enumeration", build: c20::build });
         v.push(Property { id: "C21", level: "fault_enumeration", build: c21::build });
         v.push(Property { id: "C23", level: "exploration", build: c23::build });
         v.push(Property { id: "C24", level: "exploration", build: c24::build });
